@@ -154,7 +154,7 @@ def probes_for(t, data, mn, mx, rng, flba_len):
 
 def gen_bld(tier, rng):
     out = []
-    k = 2500 if tier == "quick" else 25000
+    k = 10000 if tier == "quick" else 60000
     for _ in range(k):
         t = rng.choice([BOOLEAN, INT32, INT64, INT96, FLOAT, DOUBLE, BYTE_ARRAY, BYTE_ARRAY, FLBA, FLBA])
         tlen = 0
@@ -188,7 +188,7 @@ def gen_bld(tier, rng):
 
 def gen_pw(tier, rng):
     out = []
-    k = 1500 if tier == "quick" else 15000
+    k = 6000 if tier == "quick" else 40000
     for _ in range(k):
         t = rng.choice([INT32, INT64, FLOAT, DOUBLE])
         maxdef = rng.choice([0, 0, 1, 1, 2])
@@ -233,15 +233,21 @@ def footer_with_stats(t, flba_len, rgs):
 
 def gen_rd(tier, rng):
     out = []
-    k = 1200 if tier == "quick" else 12000
+    k = 4000 if tier == "quick" else 25000
     for _ in range(k):
         t = rng.choice(READER_TYPES)
         flen = rng.choice([1, 3, 16]) if t == FLBA else 0
         nrg = rng.choice([1, 2, 3, 4, 6, 9])
         pool = [rand_value(t, rng, flen) for _ in range(rng.randint(1, 4))]
         rgs, datas, allv = [], [], []
+        degenerate = rng.random() < 0.3          # row groups whose non-NaN values are all equal (min == max): the != corner
         for _ in range(nrg):
             data = [rand_value(t, rng, flen, pool=pool) for _ in range(rng.choice([0, 1, 1, 2, 3, 6]))]
+            if degenerate:
+                c = rng.choice(pool)
+                data = [c] * rng.choice([1, 2, 4])
+                if t in (FLOAT, DOUBLE) and rng.random() < 0.6:
+                    data.insert(rng.randrange(len(data) + 1), f32b(rng.choice(F32_NAN)) if t == FLOAT else f64b(rng.choice(F64_NAN)))
             if t == BYTE_ARRAY:
                 data = [v for v in data if len(v) <= 40]        # keep the lines short
             nulls = rng.choice([0, 0, 1, 5])
@@ -289,6 +295,8 @@ def gen_rd(tier, rng):
             if t in (INT32, FLOAT) and len(p) != 4 or t in (INT64, DOUBLE) and len(p) != 8 or t == FLBA and len(p) != flen:
                 continue
             op = rng.randrange(6) if rng.random() < 0.97 else rng.choice([6, -1, 100])
+            if degenerate and rng.random() < 0.5:
+                op = NE
             col = 0 if rng.random() < 0.96 else rng.choice([-1, 1, 2])
             maxidx = rng.choice([nrg, nrg, nrg + 1, 1, 2, max(1, nrg - 1), 0, -1])
             line = "rd %s %d %d %d %s %d %s %s" % (file_hex, t, col, op, hx(p), maxidx, s_txt, d_txt)
@@ -311,10 +319,10 @@ def gen_rd(tier, rng):
 
 def gen_helpers(tier, rng):
     out = []
-    k = 2500 if tier == "quick" else 25000
+    k = 10000 if tier == "quick" else 60000
     for _ in range(k):
         which = rng.choice(["cmp", "ovl", "ovl", "pm", "pm"])
-        t = rng.choice(READER_TYPES + ([BOOLEAN] if which != "pm" else []))
+        t = rng.choice(READER_TYPES + [INT96] + ([BOOLEAN] if which != "pm" else []))
         flen = rng.choice([1, 3, 16]) if t == FLBA else 0
         pool = [rand_value(t, rng, flen) for _ in range(rng.randint(1, 4))]
         data = [rand_value(t, rng, flen, pool=pool) for _ in range(rng.choice([1, 1, 2, 3, 6]))]
@@ -331,7 +339,7 @@ def gen_helpers(tier, rng):
             elif r < 0.24: smx = None
             elif r < 0.30 and key(t, mn) != key(t, mx): smn, smx, tb = mx, mn, False
         ps = probes_for(t, data, mn, mx, rng, flen)
-        w = {INT32: 4, FLOAT: 4, INT64: 8, DOUBLE: 8, BOOLEAN: 1}.get(t)
+        w = {INT32: 4, FLOAT: 4, INT64: 8, DOUBLE: 8, BOOLEAN: 1, INT96: 12}.get(t)
         ps = [p for p in ps if (w is None or len(p) == w) and (t != FLBA or len(p) == flen) and (t != BYTE_ARRAY or 0 < len(p) <= 60)]
         if not ps:
             continue
@@ -368,6 +376,10 @@ def gen_helpers(tier, rng):
             qidx = idx if rng.random() < 0.95 else rng.choice([-1, npage, npage + 3])
             out.append(("pm %d %s %d %s %s %s" % (t, ";".join(pages), qidx, qa, qb, "-" if nullp else vals_text(data)),
                         {"kind": "pm", "tb": tb and qidx == idx}))
+    # INT96 range [5, 2^32] vs query [6, 6]
+    a5, b32, q6 = (5).to_bytes(12, "little"), (2**32).to_bytes(12, "little"), (6).to_bytes(12, "little")
+    out.append(("ovl 3 %s %s %s %s %s" % (a5.hex(), b32.hex(), q6.hex(), q6.hex(), vals_text([a5, q6, b32])), {"kind": "ovl", "tb": True}))
+    out.append(("pm 3 0/%s/%s/0 0 %s %s %s" % (a5.hex(), b32.hex(), q6.hex(), q6.hex(), vals_text([a5, q6, b32])), {"kind": "pm", "tb": True}))
     # DESIGN section 6 F16 witness
     out.append(("pm 1 0/01000000/e8030000/0 0 00000000 00010000 05000000.e8030000.01000000", {"kind": "pm", "tb": True}))
     return out
